@@ -24,3 +24,92 @@ def tlc_state_of_violation(raw):
     """The state TLC prints for an invariant violation (for the message)."""
     m = re.search(r"is violated[^\n]*\n(.*?)(?:\n\d+ states generated|\Z)", raw, re.S)
     return (m.group(1) if m else raw[-1500:]).strip()[:1500]
+
+
+# ---------------------------------------------------------------- Backend.tla (C05, C04)
+BACKENDS = ("epoll", "epollcl", "poll", "select")
+C05_INVS = ["TypeOK", "InterestOK", "CountsOK", "PollArrayOK", "ChangelistOK"]
+
+
+def consts(backend, D, *, nfd=2, nev=3, masks=(1, 2, 3, 4, 5, 6, 7), ets=(0, 1), keeper=(), acts=("add", "del", "close", "wait"),
+           avoid=True):
+    if backend == "select":
+        masks = [m for m in masks if m < 4]
+    if not backend.startswith("epoll"):
+        ets = (0,)
+    return {"Backend": backend, "NFd": nfd, "NEv": nev, "Masks": set(masks), "ETs": set(ets), "Keeper": set(keeper),
+            "Acts": set(acts), "D": D, "AvoidKnown": avoid}
+
+
+def strip_obs(h):
+    return [{k: v for k, v in s.items() if k != "o"} for s in h]
+
+
+def tlc_backend(name, c, *, mode, invariants=C05_INVS, simulate=None, depth=None, seed=None, workers=4, timeout=1200,
+                max_hist=None, spec="Backend", env=None, emit="Emit"):
+    """mode 'mc': state graph (VIEW hides hist), invariants only; 'gen': histories (Emit)."""
+    hists, seen = [], set()
+
+    def sink(v):
+        k = json.dumps(strip_obs(v), sort_keys=True)
+        if k in seen:
+            return
+        seen.add(k)
+        if max_hist is None or len(hists) < max_hist:
+            hists.append(v)
+    if mode == "mc":
+        cfg = vkit.write_cfg(name, c, invariants=invariants, constraint="GenConstraint", view="StateView")
+        res = vkit.tlc(spec, cfg, want_prints=False, workers=workers, timeout=timeout, coverage=True, env=env)
+    else:
+        cfg = vkit.write_cfg(name, c, invariants=list(invariants) + [emit], constraint="GenConstraint")
+        res = vkit.tlc(spec, cfg, simulate=simulate, depth=depth, seed=seed, print_sink=sink, workers=workers,
+                       timeout=timeout, env=env)
+    return res, hists
+
+
+def run_parallel(jobs, nthreads=4):
+    """jobs: list of (key, callable) -> dict key -> result (exceptions re-raised)."""
+    from concurrent.futures import ThreadPoolExecutor
+    out = {}
+    with ThreadPoolExecutor(max_workers=nthreads) as ex:
+        futs = [(k, ex.submit(f)) for k, f in jobs]
+        for k, f in futs:
+            out[k] = f.result()
+    return out
+
+
+FDMAPS = ([21, 70, 33], [150, 22, 64], [63, 65, 300])
+
+
+def drv_cfg(c, *, mode="snap", sigfd=0, fdmap=0, kinds=None):
+    n = c["NFd"]
+    return {"backend": c["Backend"], "sigfd": sigfd, "mode": mode, "fdnum": FDMAPS[fdmap % len(FDMAPS)][:n],
+            "kind": list(kinds or ["sp"] * n), "keeper": sorted(c["Keeper"])}
+
+
+def build_driver():
+    return vkit.cc("backend_drv", ["backend_drv.c"],
+                   extra=["-Wl,--wrap=poll,--wrap=select,--wrap=epoll_wait,--wrap=epoll_pwait2"])
+
+
+def replay_c05(chk, exe, hists, c, *, label, variants, limit_fail=3):
+    """Replay histories on the real backend; compare every observation (return values, interest set at waits)."""
+    nfail = 0
+    for (sigfd, fdmap) in variants:
+        dc = drv_cfg(c, mode="snap", sigfd=sigfd, fdmap=fdmap)
+        outs = vkit.run_driver(exe, [{"cfg": dc, "h": strip_obs(h)} for h in hists], timeout=300)
+        for o in outs:
+            want = "epoll" if c["Backend"].startswith("epoll") else c["Backend"]
+            if isinstance(o, dict) and "method" in o and not o["method"].startswith(want):
+                raise vkit.InfraError("backend %s not selected (got %s)" % (c["Backend"], o["method"]))
+        fails = vkit.compare_histories(hists, outs)
+        chk.cov["traces_validated_against_impl"] += len(hists)
+        for (i, k, msg) in fails[:limit_fail]:
+            chk.violation("%s backend=%s sigfd=%d fdnum=%s scenario %d step %d: %s\n  history: %s" %
+                          (label, c["Backend"], sigfd, dc["fdnum"], i, k, msg, json.dumps(strip_obs(hists[i][:k + 1]))),
+                          {"cfg": dc, "h": hists[i], "fail_step": k, "msg": msg, "real": outs[i]},
+                          key=json.dumps(strip_obs(hists[i][:k + 1]), sort_keys=True))
+        if fails:
+            vkit.log("[replay] %s %s: %d/%d failed; first: %s" % (label, c["Backend"], len(fails), len(hists), fails[0][2][:400]))
+        nfail += len(fails)
+    return nfail
